@@ -468,7 +468,7 @@ func genC10(t *rapid.T) PatchCase {
 	if !ok {
 		return c
 	}
-	n := gen.Int(t, "nVariations", 1, 2)
+	n := gen.Int(t, "nVariations", 1, 3)
 	var names []string
 	for i := 0; i < n; i++ {
 		var name string
